@@ -551,6 +551,7 @@ FRAGS = [
     ['single', E('i', 'a')],
     ['multi', 'a', E('i')],
     ['multi', E('i'), E('u', 'ab')],
+    ['single', E('i', 'a', '&amp;', 'b')],      # the tokenizer reports a reference apart from the text around it: three text blocks
 ]
 
 
@@ -708,6 +709,10 @@ def random_fn(rng, size, depth=0, top=True):
         if not last_text and rng.random() < 0.4:
             kids.append(rng.choice(['a', 'ab', 'x y', 'abab', ' ', 'b']))
             last_text = True
+        elif rng.random() < 0.12:
+            # a character / entity reference: always a text block of its own, also right next to other text
+            kids.append(rng.choice(['&amp;', '&#65;', '&nbsp;', '&lt;']))
+            last_text = False
         elif budget > 0:
             s = rng.randint(1, budget)
             kids.append(random_fn(rng, s, depth + 1, False))
